@@ -39,4 +39,29 @@ def fillRequest (hasBody : Bool) (path : Str) (props : List Str) : Request :=
 /-- every place a property can land in, flattened -/
 def Request.all (r : Request) : List Str := r.path ++ r.query ++ r.body.getD []
 
+/-! ## flattened object fields in the request
+
+`fillRequest` sorts the request's own `Properties` (a flattened object field is one property, under
+its own JSON name). Path and query parameters are emitted as they are (`ToJ5Proto`); the body is
+emitted through `Body.ToJ5ClientObject()`, i.e. `ClientProperties()`: a flattened object field in
+the body shows as the client properties of its object. -/
+
+/-- a request property: its JSON name and, for a flattened object field, the JSON names of the
+client properties of its object (`none` = not flattened) -/
+structure ReqProp where
+  name : Str
+  flat : Option (List Str) := none
+  deriving Repr, DecidableEq
+
+/-- names the body shows for a list of body properties -/
+def bodyNames (props : List ReqProp) : List Str :=
+  props.flatMap fun p => p.flat.getD [p.name]
+
+def fillRequestFlat (hasBody : Bool) (path : Str) (props : List ReqProp) : Request :=
+  let names := pathParamNames path
+  let pathProps := props.filter (fun p => names.contains p.name)
+  let rest := props.filter (fun p => !names.contains p.name)
+  if hasBody then { path := pathProps.map (·.name), query := [], body := some (bodyNames rest) }
+  else { path := pathProps.map (·.name), query := rest.map (·.name), body := none }
+
 end J5V.Pipe
